@@ -69,7 +69,9 @@ def chars (j : Json) : Except String (List Char) := do
 def handle (cfg : Cfg) (line : String) : Except String (Cfg × String) := do
   let j ← Json.parse line
   match ← jStr j "op" with
-  | "cfg" => return (← parseCfg (← j.getObjVal? "cfg"), "ok")
+  | "cfg" =>
+    let c ← parseCfg (← j.getObjVal? "cfg")
+    return (c, "ok " ++ (if cleanCfg c then "clean" else "unclean"))
   | "lex" =>
     let sql ← (← (← j.getObjVal? "sql").getArr?).mapM parseCh
     return (cfg, showRes sql.size (lex cfg sql))
@@ -84,7 +86,7 @@ def handle (cfg : Cfg) (line : String) : Except String (Cfg × String) := do
   | "linecol" =>
     let s ← chars (← j.getObjVal? "sql")
     let sql : Sql := (s.map fun c => (⟨c, false, false, false, [c]⟩ : Ch)).toArray
-    let ps := (List.range sql.size).map fun p => "[" ++ toString (lineOf sql p) ++ "," ++ toString (colOf sql p) ++ "]"
+    let ps := (List.range sql.size).map fun p => "[" ++ toString (lineOf sql p) ++ "," ++ toString (colOf sql p - crlfAdj sql p) ++ "]"
     return (cfg, "[" ++ ",".intercalate ps ++ "]")
   | _ => throw "unknown op"
 
